@@ -523,12 +523,18 @@ func runC13(c *Ctx) {
 	walkType(newTypeCase(reflect.TypeOf(C13Strings{}), Cfg{WithJSON: true}), fixed)
 }
 
-// hasNonFinite: NaN or an infinity anywhere in the value (the property is about finite floats)
+// hasNonFinite: NaN, an infinity or a json.Number that is no number literal anywhere in the value
+// (the property is about the JSON data model: finite floats, valid numbers)
 func hasNonFinite(v reflect.Value, depth int) bool {
 	if depth > 12 {
 		return false
 	}
 	switch v.Kind() {
+	case reflect.String:
+		// a json.Number that is not a number literal is outside the JSON data model too
+		if v.Type() == reflect.TypeOf(json.Number("")) {
+			return !json.Valid([]byte(v.String()))
+		}
 	case reflect.Float32, reflect.Float64:
 		f := v.Float()
 		return f != f || f > 1.7976931348623157e308 || f < -1.7976931348623157e308
